@@ -62,14 +62,20 @@ def sd_float(node, pt, env):
         return min(sd_float(node.kids[0], pt, env), sd_float(node.kids[1], pt, env))
     if k == "cut":
         return min(sd_float(node.kids[0], pt, env), -sd_float(node.kids[1], pt, env))
+    if k in ("translate", "rotate"):
+        # the point's other coordinates (a product partner's) are handed down as parameters (/repo 414d4d6)
+        env2 = dict(env)
+        for kk, vv in pt.items():
+            if kk != node.var:
+                env2[kk] = [Fr(x) for x in vv]
     if k == "translate":
         t = _pf(node.pfs[0], e)
-        return sd_float(node.kids[0], {node.var: [a - b for a, b in zip(pt[node.var], t)]}, env)
+        return sd_float(node.kids[0], {node.var: [a - b for a, b in zip(pt[node.var], t)]}, env2)
     if k == "rotate":
         m, c = _pf(node.pfs[0], e), _pf(node.pfs[1], e)
         det = m[0] * m[3] - m[1] * m[2]
         qx, qy = pt[node.var][0] - c[0], pt[node.var][1] - c[1]
-        return sd_float(node.kids[0], {node.var: [(m[3] * qx - m[1] * qy) / det + c[0], (m[0] * qy - m[2] * qx) / det + c[1]]}, env)
+        return sd_float(node.kids[0], {node.var: [(m[3] * qx - m[1] * qy) / det + c[0], (m[0] * qy - m[2] * qx) / det + c[1]]}, env2)
     if k == "bdry":
         return sd_float(node.kids[0], pt, env)
     raise ValueError(k)
@@ -218,7 +224,7 @@ def gen_expr(ctx, mode, params, prows):
             b = gb.prim1("s")
             dep = rng.random() < 0.6
             ga = Gen(rng, params=params + (["s"] if dep else []), p_dep=0.6 if dep else 0.4,
-                     allow_translate=not dep, allow_rotate=not dep)
+                     allow_translate=True, allow_rotate=True)
             a = ga.solid(rng.choice([1, 1, 2]), "x")
             node = Node("prod", None, [], [a, b])
         else:
